@@ -225,6 +225,9 @@ func stageName(c stage.Cfg) string {
 	if c.Idle {
 		b.WriteString(" producer-goes-idle")
 	}
+	if c.PreCancel {
+		b.WriteString(" context-cancelled-before-the-call")
+	}
 	if c.Background {
 		b.WriteString(" context.Background")
 	}
